@@ -4,13 +4,13 @@ import Wayfind.Proofs.Registry5
 
 /-- **C06, insert.** A successful insert changes the result only for paths the new template fits. -/
 theorem insert_local (env : Env) {r r' : Router} {L : List LiveT} (h : Live r L) {t : Bytes} {d : Nat}
-    (hi : r.insert t d = .ok r') (ts : List (Bytes × List Part)) (hp : parseTemplates t = .ok ts) (hd : DistinctExps ts)
+    (hi : r.insert t d = .ok r') (ts : List (Bytes × List Part)) (hp : parseTemplates t = .ok ts)
     (path : Bytes) (hnofit : ¬ ∃ e ∈ ts, ∃ vs, Fits env e.2 path vs) :
     r'.search env path = r.search env path := by
   have hreg := h.reg
   obtain ⟨ts', hp', _, hc, rfl⟩ := (Router.insert_ok_iff r r' t d).1 hi
   rw [hp] at hp'; injection hp' with hp'; subst hp'
-  obtain ⟨hS', hfind⟩ := insertOk_find (d := d) hreg.shp hp hd hc
+  obtain ⟨hS', hfind⟩ := insertOk_find (d := d) hreg.shp hp hc
   have hreach' : Reachable (r.insertOk t d ts) := by
     obtain ⟨b, calls, rfl⟩ := h.reachable
     exact ⟨b, calls ++ [.insert t d], by simp [List.foldl_append, Router.step, hi]⟩
@@ -48,24 +48,20 @@ theorem insert_local (env : Env) {r r' : Router} {L : List LiveT} (h : Live r L)
       rw [hl] at hf
       exact Or.inl ((Node.find_iff r.root P i hreg.shp hwf).1 hf)
     | some j =>
-      obtain ⟨e, he, hk, _⟩ := lookupIns_some_key hl
+      obtain ⟨e, hpk, _⟩ := lookupIns_some_key hl
+      obtain ⟨he, hk⟩ := pick_mem hpk
       refine Or.inr ?_
       rintro ⟨vs, hfit⟩
       exact hnofit ⟨e, he, vs, by rw [hk]; exact hfit⟩
 
 /-- after a successful insert every path the new template fits is matched (C06, second half; C08, "becomes routable") -/
 theorem insert_routes (env : Env) {r r' : Router} {L : List LiveT} (h : Live r L) {t : Bytes} {d : Nat}
-    (hi : r.insert t d = .ok r') (ts : List (Bytes × List Part)) (hp : parseTemplates t = .ok ts) (hd : DistinctExps ts)
+    (hi : r.insert t d = .ok r') (ts : List (Bytes × List Part)) (hp : parseTemplates t = .ok ts)
     (path : Bytes) (hfit : ∃ e ∈ ts, ∃ vs, Fits env e.2 path vs) :
     (r'.search env path).isSome = true := by
-  obtain ⟨b, calls, hdc, he⟩ := h
+  obtain ⟨b, calls, he⟩ := h
   have hlive' : Live r' (L ++ [⟨t, d, ts⟩]) := by
-    refine ⟨b, calls ++ [.insert t d], ?_, ?_⟩
-    · intro c hc
-      rcases List.mem_append.1 hc with hc | hc
-      · exact hdc c hc
-      · simp only [List.mem_singleton] at hc; subst hc
-        intro ts' hp'; rw [hp] at hp'; injection hp' with hp'; subst hp'; exact hd
+    refine ⟨b, calls ++ [.insert t d], ?_⟩
     · have key : ∀ (cs : List Call) (r0 : Router) (L0 : List LiveT) (c : Call),
           runLive r0 L0 (cs ++ [c]) = ((runLive r0 L0 cs).1.step c, liveAfter (runLive r0 L0 cs).1 (runLive r0 L0 cs).2 c) := by
         intro cs
